@@ -288,7 +288,7 @@ func controlClass(c byte) string {
 
 func runC16(r *core.Run) {
 	bindRef(r)
-	depth := 5
+	depth := 6
 	if thorough(r) {
 		depth = 7
 	}
